@@ -428,6 +428,32 @@ fn build_cli_cases(tier: Tier) -> Vec<CliCase> {
             }
         }
     }
+    // payload sizes through the real pipe / file readers: the skipped packet (link 1) has the size under test
+    let sizes: Vec<usize> = if tier.is_thorough() {
+        (0..=10_000).collect()
+    } else {
+        vec![0, 1, 15, 16, 17, 1023, 1024, 1025, 4095, 4096, 4097, 8191, 8192, 8193, 9983, 9984, 9999, 10_000]
+    };
+    for &sz in &sizes {
+        let mut r0 = Rdh::base();
+        r0.fee_id = gen::fee_of_link(0);
+        let pk = vec![
+            Packet::framed(r0, vec![0x11; 32]),
+            gen::arbitrary_framed(1, gen::fee_of_link(1), sz, 70_000 + sz as u64),
+            gen::arbitrary_framed(0, gen::fee_of_link(0), 48, 80_000 + sz as u64),
+            gen::arbitrary_framed(1, gen::fee_of_link(1), 10_000 - sz.min(10_000), 90_000 + sz as u64),
+            gen::arbitrary_framed(2, gen::fee_of_link(2), 16, 95_000 + sz as u64),
+        ];
+        let fl: &[Option<Filter>] = if tier.is_thorough() && sz % 16 != 0 { &[Some(Filter::Link(0))] } else { &[None, Some(Filter::Link(0)), Some(Filter::Link(2))] };
+        for f in fl {
+            for stdin in [true, false] {
+                if !stdin && tier.is_thorough() && sz % 64 != 0 {
+                    continue;
+                }
+                v.push(CliCase { packets: pk.clone(), filter: *f, stdin, label: format!("cli payload size {sz}") });
+            }
+        }
+    }
     // batch multiples on the CLI (CAP = 100): 99 / 100 / 101 / 200 / 201 packets
     let counts: &[usize] = if tier.is_thorough() { &[99, 100, 101, 200, 201] } else { &[100, 101] };
     for &n in counts {
